@@ -639,6 +639,16 @@ def _run(ctx, pool, hello, has_cost, T):
         "correspondence) and PSDImage.open both run inside the guarded worker.",
         "opening never decompresses pixel data (ChannelData / ImageData keep the compressed bytes), so zlib bombs and "
         "width x height allocations can only bite at export time; they are exercised there and classified C06/export/...",
+        "zlib bombs: before repo commit f5bac49 compression.decompress() called zlib.decompress() without a bound (a 2 MB ZIP "
+        "channel of a 4x4 layer, or the merged image data of a 4x4 document, inflated to 2 GiB: ~25 s and 2 GiB per export "
+        "call, MemoryError under RLIMIT_AS); it now inflates through a decompressobj limited to the expected "
+        "width*height*bytes and raises ValueError when the stream holds more. PackBits rows are bounded by the decoder's "
+        "`size` argument (C05). The hostile files zipbomb-* (64 MiB and 2 GiB, compression 2 and 3, layer channel and merged "
+        "image) run on every run, the 2 GiB ones also from the corpus.",
+        "header bounds: before repo commit c17f33b FileHeader accepted 57 channels and a height/width of 300001 (range()-style "
+        "bounds given to the inclusive validator); found by the header section of this check (C06/header/*-accepted).",
+        "the compiled _rle extension present in the working tree is what `rle_impl` resolves to in the workers (see "
+        "watchdog.rle_impl); it is exercised by the export subset only.",
         "an AttributeError mentioning ImageMath at export is the Pillow 12 environment (no ImageMath.eval), not a finding; "
         "the repository already uses ImageMath.lambda_eval when present.",
     ]
